@@ -18,8 +18,10 @@ def lifecycle_part(rep, a, tags, quick, thorough, devs, quick_paths=24, maxlen=1
         findings += tracelife.run(rep, trace_worlds if not th else worlds, num=trace_num if not th else 40, depth=14 if not th else 18,
                                   seed=rep.seed, procs=a.procs)
     liferun.report_findings(rep, findings, tags)
-    for cap, dev in devs:
-        res = L.deviation_counterexample(cap, True, False, True, dev)
+    for item in devs:
+        cap, dev = item[0], item[1]
+        cfg3 = item[2] if len(item) > 2 else (True, False, True)       # (eager, dask input, check_nans) of the world the deviation needs
+        res = L.deviation_counterexample(cap, *cfg3, dev)
         rep.self_tests.append(dict(test=f"deviation {dev} on {cap} must violate an invariant", violated=res.violated))
         if res.ok:
             raise common.MachineryError(f"deviation {dev} produced no counterexample: invariants vacuous")
